@@ -432,13 +432,15 @@ PLANS["C11"] = {
 PLANS["C12"] = {
     "level": "exploration",
     "rule": HIST_RULE + "; items carry a payload ignored by Eq/Hash: every key argument brings a fresh payload, payloads are rewritten through get_mut / peek_*_mut / iter_mut / "
-    "pop_*_if, and every item that comes back (by reference or by value) is compared including its payload; owned and borrowed lookups run side by side",
+    "pop_*_if, and every item that comes back (by reference or by value) is compared including its payload; owned and borrowed lookups run side by side "
+    "(Item / Key on every probe, and String items addressed through &String versus &str in the strkeys job)",
     "assumptions": ASSUME,
     "jobs": lambda tier: [
         hist_job("hist-payload", "both", "payload,churn,churn-single,bulk-small,convert", q(tier, 300_000, 6_000_000)),
         bfs_job("bfs-both", "both", q(tier, "3:3,4:2", "3:3,4:2,4:3")),
+        Job("strkeys", "ubcheck", "strkeys", {"histories": q(tier, 400, 8000)}, shards=4, restartable=False),
     ],
-    "floors": floors(floor_bfs("bfs-both"), floor_ops("hist-payload", ["get_mut", "peek_max_mut", "iter_mut", "push", "change_priority"], 1000)),
+    "floors": floors(floor_bfs("bfs-both"), floor_ops("hist-payload", ["get_mut", "peek_max_mut", "iter_mut", "push", "change_priority"], 1000), floor_stat("strkeys", ["owned_vs_borrowed_comparisons"], 10_000, "String vs &str lookups")),
 }
 
 # ------------------------------------------------------------------------------------------------
